@@ -441,10 +441,10 @@ pub fn run_case(case: &QuantCase, mask: u32, stats: &mut Stats) -> Result<CaseIn
             // ---- C19
             if mask & C19 != 0 {
                 check_record(v, &c, step, stats)?;
-                // armed only when the record itself shows that the window path produced it (fraction reproduces the
-                // unclamped input) - for inputs inside [0,10] both paths coincide, so this is always the case there
-                let raw_ok = v.is_finite() && ((c.stairstep as f64 + c.fraction as f64) - v as f64).abs() <= 2.0 * ulp32(v.abs().max(c.stairstep.abs()));
-                if kept_by_window && raw_ok {
+                // "the window kept the previous note" = the previous note is still allowed, the input is strictly inside its
+                // widened bucket and the note was indeed kept (which C09 requires there); which code path computed the
+                // record is not observable and does not matter
+                if kept_by_window {
                     let semis = c.fraction as f64 * 12.0;
                     let tol = 12.0 * TAU + 1e-5;
                     if !(semis >= -0.1 - tol && semis <= 1.1 + tol) {
